@@ -131,11 +131,18 @@ def _make(rng, w, dst, inner=False):
         else:
             c.cumulative_tsn = rng.choice([sacked, sacked, behind(rng, sacked)])
         c.advertised_rwnd = rng.choice(U32)
-        ng = rng.choice([0, 1, 2, 5, 250])
+        ng = rng.choice([0, 1, 2, 5, 250, 290])
+        wide = rng.random() < 0.3      # many maximal blocks: the most expensive SACK a datagram can carry
         for _ in range(ng):
             a = rng.choice([0, 1, 2, 3, 10, 65535, rng.randrange(65536)])
             b = rng.choice([a, a + 1, a - 1, 0, 65535, a + 3, rng.randrange(65536)]) % 65536
+            if wide:
+                a, b = rng.choice([0, 1, 2]), 65535
             c.gaps.append((a, b))
+        if wide and rng.random() < 0.5:
+            # acknowledging far beyond anything that was sent (everything outstanding is then released)
+            c.cumulative_tsn = (t._local_tsn + rng.choice([0, 1, 5, 1000, 2**30])) % 2**32
+            forging = True
         c.duplicates = [rng.choice(U32) for _ in range(rng.choice([0, 1, 3]))]
         chunks.append(bytes(c))
     elif kind == 9:    # FORWARD TSN
